@@ -18,8 +18,10 @@ client is silent: the interrupted operation must leave no trace.
 
 import asyncio
 import collections.abc
+import datetime
 import email.message
 import enum
+import functools
 import io
 import re
 import types
@@ -59,6 +61,7 @@ KNOWN_CLOSE_NOT_RECORDED = 'ws-close-send-failure-not-recorded'
 KNOWN_HANDLER_NO_CLOSE = 'ws-custom-error-handler-leaves-socket-unclosed'
 KNOWN_PUMP_STOPPED = 'ws-receive-after-incomplete-close-assertion'
 KNOWN_ERROR_CLOSE_NOT_RETRIED = 'ws-error-path-close-failure-not-retried'
+KNOWN_MEDIA_BEFORE_DISCONNECT = 'ws-send-media-serializes-before-disconnect-check'
 
 
 class CustomErr(Exception):
@@ -88,10 +91,11 @@ class Ctx:
         self.ops = {}
         self.route = case['route']  # effective route: process_request_ws may re-route by assigning req.path
         self.rewrites = 0
+        self.unser = 0
         self.header_objects = 0
         self.unusual = 0            # exceptions with raising __str__/__repr__/__format__ raised by user code
         self.typed = 0              # typed arguments (str subclasses, IntEnum members) handed to the real code
-        self.oplog = []             # (site, op name, result, [attempt outcomes])
+        self.oplog = []             # (site, op name, result, [attempt outcomes], facts before the operation)
         self.diverged_at = None
 
 
@@ -177,6 +181,21 @@ def prep(step):
         if is_typed(s.get(k)):
             s[k] = mat(s[k])
             CTX.typed += 1
+    if s.get('unser'):
+        # a media object the configured handlers cannot serialize
+        kind = s['unser']
+        if kind == 'set':
+            s['_v'] = {1, 2}
+        elif kind == 'datetime':
+            s['_v'] = {'when': datetime.datetime(2020, 1, 1)}
+        elif kind == 'object':
+            s['_v'] = [object()]
+        else:
+            loop = []
+            loop.append(loop)
+            s['_v'] = loop
+        CTX.unser += 1
+        return s
     v = s.get('v')
     if is_typed(v):
         s['_v'] = mat(v)
@@ -320,8 +339,11 @@ async def run_site(site, ws, steps, req=None):
             c.inflight = None
             att = drv.attempts[n0:]
             c.attributed.update(a[0] for a in att)
+            phase_before = model.phase
             model.judge(s, facts, att, res)
-            c.oplog.append((site, n, res, [a[2] for a in att]))
+            c.oplog.append((site, n, res, [a[2] for a in att],
+                            {'handed': bool(facts['handed']), 'unser': bool(s.get('unser')), 'phase': phase_before,
+                             'wire': facts['state']}))
             if model.diverged and c.diverged_at is None:
                 c.diverged_at = len(c.oplog) - 1
             c.judged += 1
@@ -373,6 +395,50 @@ async def handler_without_ws(req, resp, ex, params):
     await run_site('handler', None, CTX.case['handler']['steps'])
 
 
+# every way of spelling "this handler declares a parameter named ws" (docs: the WebSocket "will be passed as a
+# keyword argument named ws")
+async def handler_ws_kwonly(req, resp, ex, params, *, ws=None):
+    await handler_with_ws(req, resp, ex, params, ws=ws)
+
+
+async def handler_ws_kwonly_required(req, resp, ex, params, *, ws):
+    await handler_with_ws(req, resp, ex, params, ws=ws)
+
+
+async def handler_ws_required(req, resp, ex, params, ws):
+    await handler_with_ws(req, resp, ex, params, ws=ws)
+
+
+async def handler_ws_and_kwargs(req, resp, ex, params, ws=None, **kwargs):
+    await handler_with_ws(req, resp, ex, params, ws=ws)
+
+
+class HandlerMethods:
+    async def on_error(self, req, resp, ex, params, ws=None):
+        await handler_with_ws(req, resp, ex, params, ws=ws)
+
+    async def __call__(self, req, resp, ex, params, *, ws=None):
+        await handler_with_ws(req, resp, ex, params, ws=ws)
+
+
+async def _handler_extra(tag, req, resp, ex, params, ws=None):
+    await handler_with_ws(req, resp, ex, params, ws=ws)
+
+
+HANDLER_FUNCS = {
+    'ws': handler_with_ws,
+    'nows': handler_without_ws,
+    'ws_kwonly': handler_ws_kwonly,
+    'ws_kwonly_required': handler_ws_kwonly_required,
+    'ws_required': handler_ws_required,
+    'ws_and_kwargs': handler_ws_and_kwargs,
+    'ws_method': HandlerMethods().on_error,
+    'ws_callable': HandlerMethods(),
+    'ws_partial': functools.partial(_handler_extra, 'tag'),
+}
+WS_SIGS = tuple(k for k in HANDLER_FUNCS if k != 'nows')
+
+
 class BinHandler(falcon.media.BinaryBaseHandlerWS):
     def serialize(self, media):
         return M.Binary.enc(media)
@@ -422,10 +488,8 @@ def get_app(mw, handler_sig, inplace=False):
         app.add_route('/ws', WS_RES)
         app.add_route('/room/{name}', WS_RES)
         app.add_route('/nows', NOWS_RES)
-        if handler_sig == 'ws':
-            app.add_error_handler(CustomErr, handler_with_ws)
-        elif handler_sig == 'nows':
-            app.add_error_handler(CustomErr, handler_without_ws)
+        if handler_sig is not None:
+            app.add_error_handler(CustomErr, HANDLER_FUNCS[handler_sig])
         app.ws_options.media_handlers[falcon.WebSocketPayloadType.BINARY] = BinHandler()
         table = app.ws_options.default_close_reasons
         # every app starts from the documented defaults, and owns its table
@@ -654,7 +718,7 @@ def _judge_end(o, P):
             P.append(('handler-resp-not-none', {'resp': repr(resp)}))
         if ex is not ended_ex:
             P.append(('handler-wrong-exception', {}))
-        if handler['sig'] == 'ws':
+        if handler['sig'] != 'nows':
             if ws is None or (c.ws_objs and ws is not c.ws_objs[0]):
                 P.append(('handler-ws-not-passed', {'ws': repr(ws)}))
         e = c.ended.get('handler')
@@ -746,10 +810,21 @@ def explain(o):
     #     client already gone -> silent no-op, server send raised) the socket stays "accepted" with no pump and
     #     the next receive_*() trips an internal assertion instead of working / raising WebSocketDisconnected
     if c.diverged_at is not None and case['queue'] > 0:
-        site, opname, res, _ = c.oplog[c.diverged_at]
+        site, opname, res, _, _ = c.oplog[c.diverged_at]
         if opname.startswith('receive_') and res[0] == 'exc' and type(res[1]) is AssertionError:
             if any(e[1] == 'close' and 'sent' not in e[3] for e in c.oplog[:c.diverged_at]):
                 take(KNOWN_PUMP_STOPPED, lambda p: p[0].startswith('model:') and p[1].get('op') == opname)
+    # (5) send_media() checks only its own state flag before running the media handler; that the receive pump
+    #     has already been handed the client's disconnect is looked at later (in _send): with an object the
+    #     handler cannot serialize the handler's error is raised instead of WebSocketDisconnected.  (Accepted
+    #     socket on which the app sent no close event; a ws.close() after the disconnect is a silent no-op
+    #     that leaves the flag untouched.)
+    if c.diverged_at is not None:
+        site, opname, res, outcomes, info = c.oplog[c.diverged_at]
+        if opname == 'send_media' and info['unser'] and info['handed'] and info['wire'] == D.OPEN \
+                and not outcomes and res[0] == 'exc' and case['queue'] > 0 \
+                and not isinstance(res[1], (ferrors.WebSocketDisconnected, ferrors.OperationNotAllowed)):
+            take(KNOWN_MEDIA_BEFORE_DISCONNECT, lambda p: p[0] == 'model:wrong-error' and p[1].get('op') == 'send_media')
     # (2) a custom error handler that returns without closing: nothing closes the socket afterwards
     if o.terminal == ('handled',) and drv.outcome == 'done':
         take(KNOWN_HANDLER_NO_CLOSE, lambda p: p[0] == 'no-close-at-end')
@@ -808,6 +883,10 @@ def run_case(rec, case, tag):
         rec.count('args.unrenderable-exception', c.unusual)
     if c.header_objects:
         rec.count('args.header-object', c.header_objects)
+    if c.unser:
+        rec.count('args.unserializable-media', c.unser)
+    if norm_case(case)['handler']:
+        rec.count('handler.sig.' + norm_case(case)['handler']['sig'])
     rec.count('reasons.' + norm_case(case)['reasons'])
     if c.typed:
         rec.count('args.typed', c.typed)
@@ -1092,6 +1171,36 @@ def block_e(rec):
             for sig in ('ws', 'nows'):
                 go(dict(cfg, steps=[{'op': 'accept'}, {'op': 'raise', 'exc': 'custom'}],
                         handler={'sig': sig, 'steps': [dict(hexc, op='raise', badstr=True)]}), 'unrenderable')
+    # every spelling of a handler that declares `ws`
+    for cfg in cfgs:
+        for sig in HANDLER_FUNCS:
+            for hsteps in ([{'op': 'close', 'code': 4029}], [], [{'op': 'raise', 'exc': 'http_error', 'status': 429}],
+                           [{'op': 'accept'}, {'op': 'send_text', 'v': 'farewell'}, {'op': 'close', 'code': 4029}]):
+                if sig == 'nows':
+                    hsteps = [s_ for s_ in hsteps if s_['op'] == 'raise']
+                r = {'op': 'raise', 'exc': 'custom'}
+                go(dict(cfg, steps=[r], handler={'sig': sig, 'steps': hsteps}), 'handler-signatures')
+                go(dict(cfg, steps=[{'op': 'accept'}, {'op': 'send_text', 'v': 'x'}, r],
+                        handler={'sig': sig, 'steps': hsteps}), 'handler-signatures')
+                go(dict(cfg, mw={'req': [r], 'res': []}, steps=[], handler={'sig': sig, 'steps': hsteps}),
+                   'handler-signatures')
+    # send_media with an object the media handler cannot serialize, in every state
+    contexts = ([], [{'op': 'accept'}], [{'op': 'accept'}, {'op': 'close'}], [{'op': 'close'}],
+                [{'op': 'accept'}, {'op': 'receive_text'}], [{'op': 'accept'}, {'op': 'yield'}, {'op': 'yield'}],
+                [{'op': 'accept'}, {'op': 'yield'}, {'op': 'yield'}, {'op': 'close', 'code': 4001}],
+                [{'op': 'accept'}, {'op': 'close', 'code': 1005}])
+    for cfg in cfgs:
+        for kind in ('set', 'datetime', 'object', 'circular'):
+            for pt in (None, 'text', 'binary'):
+                for pre in contexts:
+                    for prop in (False, True):
+                        st = {'op': 'send_media', 'unser': kind}
+                        if pt:
+                            st['pt'] = pt
+                        if prop:
+                            st['prop'] = True
+                        go(dict(cfg, steps=pre + [st, {'op': 'send_media', 'v': {'fine': 1}}],
+                                client=[{'t': 'disc', 'code': 1001}]), 'unserializable')
     # (b) re-routing
     routes = ('ok', 'param', 'unrouted', 'nows')
     for orig in routes:
@@ -1319,6 +1428,9 @@ def rnd_step(rng, allow_raise=True):
         s['prop'] = True
     if s['op'] == 'raise' and rng.random() < 0.2:
         s['badstr'] = True
+    if s['op'] == 'send_media' and rng.random() < 0.15:
+        del s['v']
+        s['unser'] = rng.choice(['set', 'datetime', 'object', 'circular'])
     if s['op'] == 'accept' and isinstance(s.get('hdrs'), list) and s['hdrs'] and rng.random() < 0.5:
         s['hdrs'] = {'obj': rng.choice(HEADER_OBJECTS), 'pairs': s['hdrs']}
     # documented argument types other than the exact built-ins
@@ -1388,8 +1500,8 @@ def rnd_case(rng):
         case['mw'] = {'req': rnd_script(rng, 2, False) if rng.random() < 0.5 else [],
                       'res': rnd_script(rng, 2, False) if rng.random() < 0.5 else []}
     if rng.random() < 0.4:
-        sig = rng.choice(['ws', 'nows'])
-        if sig == 'ws':
+        sig = rng.choice(['ws', 'nows', rng.choice(WS_SIGS)])
+        if sig != 'nows':
             hs = rnd_script(rng, 3, False)
             # an error handler that fails with an unexpected exception of its own is outside the statement
             hs = [s for s in hs if not (s['op'] == 'raise' and s['exc'] not in ('http_error', 'http_status'))]
@@ -1488,6 +1600,13 @@ def run(rec):
     rec.floor('phase.exhaustive-cancel', 1000)
     rec.floor('phase.types', 500)
     rec.floor('phase.apps', 200)
+    rec.floor('phase.handler-signatures', 300)
+    rec.floor('phase.unserializable', 500)
+    rec.floor('args.unserializable-media', 500)
+    for sig in HANDLER_FUNCS:
+        rec.floor('handler.sig.' + sig, 20)
+    for b in ('send_media.unserializable', 'send_media.unaccepted', 'send_media.closed', 'send_media.disconnect-noticed'):
+        rec.floor('branch.' + b, 20)
     rec.floor('phase.header-objects', 200)
     rec.floor('phase.unrenderable', 300)
     rec.floor('args.header-object', 200)
